@@ -18,6 +18,11 @@ def main():
             plan.append(dict(fam=fam, impl=impl, emb='ext' if fam[0] == 'O' or len(plan) % 2 else 'mid',
                              nkeys=3, seed=ck.seed * 100 + len(plan), weighted=True,
                              maxpairs=(3000 if impl == 'c' else 1200) if quick else 60000))
+    # operands that live in a data manager, stored and evicted: every node a ghost when the weighted operation starts
+    for fam in (['II', 'LF'] if quick else ['II', 'LF', 'OQ', 'UF', 'QQ', 'OI']):
+        for impl in ('c', 'py'):
+            plan.append(dict(fam=fam, impl=impl, emb='mid', nkeys=4, seed=ck.seed * 100 + 70 + len(plan), weighted=True, ghost=True,
+                             pure=(impl == 'py'), maxpairs=(500 if impl == 'c' else 200) if quick else 8000))
     run_setops(ck, plan, 'C12')
     ck.assumptions += ['unsigned value families get non-negative weights (negative ones are documented as meaningless)',
                        'float families: values and weights are multiples of 0.5 (exact in single precision); '
